@@ -2,34 +2,47 @@
 spec/SlicerBounds.tla: the accesses of one bit slicer call (scan steps, run-in complete at any step, framing code match or not,
   data bits at n + ((phase_shift + k*step) >> 8) with interpolation neighbour / 16 sample low-pass window); the numbers of
   every configuration are the fields of the REAL configured object (vbi3_bit_slicer_set_params / vbi_bit_slicer_init), dumped
-  by harness/drv_rawdec.c.  Invariants LineBound, ImageBound, WriteBound, ChannelOk, action property Rightward.
+  by harness/drv_rawdec.c, the configuration is chosen in Init (one TLC run decides a list of configurations).
+  Invariants LineBound, InnerBound, WriteBound, ChannelOk, action properties Rightward, ScanRight.
+spec/SlicerImage.tla: the loop of vbi3_raw_decoder_decode over the scan lines of an image (row pointer, interlaced layout,
+  output array of max_lines records); RowInside, OwnRow, OutBound, OneEach, Result.
 MC:  TLC explores every (configuration, scan step, data bit) of the grid services x rates x line lengths x pixel layouts x
-     {new, new with sample offset, legacy} and a survey run lists every scan step at which the line bound is exceeded.
-REPLAY: every configuration is executed on the real slicer with an exactly sized line directly in front of an inaccessible
-     page: the service's reference waveform (library transmitter) moved sample by sample across the end of the search range,
-     noise, constant levels and square waves; a trapped access is compared with the model (must be predicted, same address);
-     worst cases again on exactly sized heap blocks under ASan; the raw decoder (both interfaces) with exactly sized images,
-     the service on the last / first row, output array of exactly max_lines records in front of an inaccessible page."""
+     {new, new with sample offset, legacy} (quick: a seeded sample of the grid); when a bound fails a survey run lists every
+     scan step at which the line bound is exceeded (first byte behind the line, excess).
+TV:  slicer calls recorded with vbi3_bit_slicer_slice_with_points (run-in step, sample of every bit) validated against
+     SlicerBounds by Trace_SlicerBounds.
+REPLAY: every modelled configuration is executed on the real slicer with an exactly sized line directly in front of an
+     inaccessible page: the service's reference waveform (library transmitter) moved sample by sample across the end of the
+     search range, noise, constant levels and square waves; a trapped access is compared with the model (must be predicted,
+     same address); worst cases again on exactly sized heap blocks under ASan; the behaviours generated from SlicerImage on
+     the raw decoders (both interfaces) with exactly sized images and an output array of exactly max_lines records in front
+     of inaccessible pages: number of records, their lines and payloads as the spec says, nothing trapped."""
 import os, json, shutil, random
 from vlib import tlc, build, core
 
 MANIFEST = dict(
     level="model_checking",
-    engine="tlc-mc+replay",
-    technique="TLA+ spec SlicerBounds (access pattern of the bit slicer; constants = fields of the real configured slicer objects) "
-              "checked exhaustively by TLC for every scan position and data bit of a grid of configurations; every configuration "
+    engine="tlc-mc+tv+replay",
+    technique="TLA+ spec SlicerBounds (access pattern of the bit slicer; constants = fields of the real configured slicer objects, "
+              "configuration chosen in Init) checked exhaustively by TLC for every scan position and data bit of a grid of configurations; "
+              "TLA+ spec SlicerImage (scan line loop, row pointer, output array) checked exhaustively and all its behaviours replayed; "
+              "recorded sampling points of the real slicer validated against the spec (Trace_SlicerBounds); every configuration "
               "replayed on the real slicers and raw decoders with exactly sized buffers in front of PROT_NONE pages and on exactly "
               "sized heap blocks under ASan, trapped accesses compared with the model's prediction",
     text="For each configuration of the grid (16 services of the library's table x sampling rates 3..35.5 MHz x line lengths "
-         "minimal, +1, +100, nominal x 7 pixel layouts x new slicer with and without sample offset and the legacy slicer) TLC explores "
-         "all run-in positions the search loop can reach and all framing/payload bits and checks that no sample at or behind "
-         "samples_per_line is read (LineBound), nothing behind the image (ImageBound), no more than ceil(payload/8) bytes are stored "
-         "(WriteBound) and that the accesses move rightwards (so the last bit is the worst). The same configurations are run on the "
-         "real code with guard pages: reference waveforms shifted sample by sample over the end of the search range, noise, saturated "
-         "and square wave lines; image level with the signal on the last and on the first row, records counted against max_lines.",
+         "minimal, +1, +100, nominal x all pixel layouts x new slicer with and without sample offset and the legacy slicer; quick: a "
+         "seeded sample covering every service and slicer kind) TLC explores all run-in positions the search loop can reach and all "
+         "framing/payload bits and checks that no sample at or behind samples_per_line is read (LineBound), a line that is not the last "
+         "row stays inside the next row (InnerBound), no more than ceil(payload/8) bytes are stored (WriteBound) and that the accesses "
+         "move rightwards. SlicerImage: for all field counts, interlaced or not, all max_lines and all sets of signal lines the row handed "
+         "to a slicer is the scan line's own row inside the image and at most min(max_lines, rows) records are stored. The same "
+         "configurations are run on the real code with guard pages: reference waveforms shifted sample by sample over the end of the "
+         "search range, noise, saturated and square wave lines; every SlicerImage behaviour on both raw decoder interfaces (records, lines, "
+         "payloads compared with the spec); recorded sampling positions of the real slicer must be the positions of the spec.",
     note="The model takes the slicer's integer parameters from the real object, so it decides the bound for these parameters, not "
          "the floating point computation that produced them (that is covered by running the grid). Sampling rates between the grid "
-         "points are not covered. VBI_SLICED_2xCAPTION_525 has no reference transmitter (noise / square waves only).",
+         "points are not covered. VBI_SLICED_2xCAPTION_525 has no reference transmitter (noise / square waves only). The sampling "
+         "point array of the debugging interface (vbi3_bit_slicer_slice_with_points) is not part of the statement.",
 )
 
 NAMES = {0x2000: "TTX_A", 1: "TTX_B_L10", 3: "TTX_B", 0x4000: "TTX_C_625", 0x8000: "TTX_D_625", 4: "VPS", 0x1000: "VPS_F2",
@@ -38,8 +51,13 @@ NAMES = {0x2000: "TTX_A", 1: "TTX_B_L10", 3: "TTX_B", 0x4000: "TTX_C_625", 0x800
 NO_TX = {0x80}
 BLANK_IDS = {0x20000000, 0x40000000}
 NOMINAL = {3000000: 176, 13500000: 720, 27000000: 1440, 35468950: 2048}
-FIELDS = ["lp", "skip", "bps", "wide", "scan", "phase_shift", "step", "frc_bits", "payload", "endian", "spl", "soff", "after"]
+FIELDS = ["lp", "skip", "bps", "wide", "scan", "phase_shift", "step", "frc_bits", "payload", "endian", "spl", "soff"]
 ENV = dict(ASAN_OPTIONS="detect_leaks=0:abort_on_error=0:exitcode=99:allocator_may_return_null=1")
+NPROC = 8                      # parallel driver processes
+QUICK_STATES = 1500000         # model states explored by the quick tier
+TLC_PARTS = 2                  # thorough: parallel TLC runs
+Y8 = 1
+CORRUPT = os.environ.get("VERIF_C05_CORRUPT", "")     # selftest: "points" / "image" falsify one recorded / generated field
 
 
 def env():
@@ -52,6 +70,27 @@ def drv_batch(drv, cmds, timeout=900):
     return r
 
 
+def report_san(ctx, stderr, replay=None):
+    """sanitizer reports of the units under this property; io-sim.c is the signal generator of the harness (its reports
+    belong to C01 and are only noted)"""
+    n = 0
+    for (kind, fn, where) in core.sanitizer_reports(stderr):
+        key = "%s:%s" % (kind, fn)
+        memory = kind.startswith("asan:") or kind.startswith("ubsan:index") or "pointer" in kind
+        if where.startswith("io-sim.c") or not memory:
+            note = "sanitizer report outside this property's statement (%s; see C01): %s at %s" % (
+                "the transmitter of the harness" if where.startswith("io-sim.c") else "not a memory access", key, where)
+            if note not in ctx.notes:
+                ctx.notes.append(note)
+            continue
+        i = stderr.find(where) if where else -1
+        ctx.violate("sanitizer", key, stderr[max(0, i - 200):i + 2500] if i >= 0 else stderr[-2500:], replay)
+        n += 1
+        if n >= 5:
+            break
+    return n
+
+
 def nominal_spl(rate):
     return NOMINAL.get(rate, (int(rate * 53.33e-6) + 1) & ~1)
 
@@ -62,43 +101,45 @@ def payload_of(svc, seed):
     return "".join("%02x" % rnd.randrange(256) for _ in range(n))
 
 
-def fmt_classes(table):
-    """representative format per access layout class, and all formats"""
-    return table["formats"]
+def same_payload(svc, a, b):
+    """the payload bits of two hex strings agree (bits of the last byte beyond the payload are undefined)"""
+    bits = svc["payload"]
+    x, y = bytes.fromhex(a)[:(bits + 7) // 8], bytes.fromhex(b)[:(bits + 7) // 8]
+    if len(x) != len(y):
+        return False
+    full = bits // 8
+    if x[:full] != y[:full]:
+        return False
+    return not (bits & 7) or ((x[full] ^ y[full]) & ((1 << (bits & 7)) - 1)) == 0
+
+
+def data_bits(rec):
+    return rec["frc_bits"] + (rec["payload"] if rec["endian"] >= 2 else 8 * rec["payload"])
+
+
+def states_of(rec):
+    return 3 + rec["scan"] * (data_bits(rec) + 1)
 
 
 def grid(ctx, table):
-    """-> list of configuration requests dict(api, fmt, rate, base, delta, soff, svc)"""
-    quick = ctx.tier == "quick"
+    """-> list of configuration requests dict(api, fmt, rate, spl, soff, svc); quick samples this list after the real
+    objects are known (sample())"""
     svcs = [s for s in table["services"] if s["id"] not in BLANK_IDS]
     fm = {f["fmt"]: f for f in table["formats"]}
-    Y8, UYVY, RGB16LE, RGB16BE, RGBA_BE, RGBA_LE, RGB24, YUYV = 1, 4, 38, 39, 33, 32, 36, 2
     out = []
-    if quick:
-        rates = [13500000, 27000000]
-        for s in svcs:
-            rr = list(rates) + ([3000000] if max(s["cri_rate"], s["bit_rate"]) <= 1100000 else [])
-            for rate in rr:
-                for spl in ("min+1", "nom"):
-                    for api, soff in (("new", 0), ("new", 5), ("old", 0)):
-                        out.append(dict(api=api, fmt=Y8, rate=rate, spl=spl, soff=soff, svc=s["id"]))
-            for fmt in (UYVY, RGB16LE, RGBA_BE):
-                for api in ("new", "old"):
-                    out.append(dict(api=api, fmt=fmt, rate=27000000, spl="nom", soff=0, svc=s["id"]))
-    else:
-        rates = [3000000, 6750000, 13500000, 14318180, 14750000, 17734475, 27000000, 28636363, 35468950]
-        for s in svcs:
-            for rate in rates:
-                for spl in ("min", "min+1", "min+100", "nom"):
-                    for api, soff in (("new", 0), ("new", 5), ("old", 0)):
-                        out.append(dict(api=api, fmt=Y8, rate=rate, spl=spl, soff=soff, svc=s["id"]))
-            for fmt in sorted(fm):
-                if fmt == Y8:
-                    continue
-                for rate in (13500000, 27000000, 35468950):
-                    for spl in ("min", "nom"):
-                        for api in ("new", "old"):
-                            out.append(dict(api=api, fmt=fmt, rate=rate, spl=spl, soff=0, svc=s["id"]))
+    rates = [3000000, 6750000, 13500000, 14318180, 14750000, 17734475, 27000000, 28636363, 35468950]
+    for s in svcs:
+        for rate in rates:
+            for spl in ("min", "min+1", "min+100", "nom"):
+                for api, soff in (("new", 0), ("new", 5), ("old", 0)):
+                    out.append(dict(api=api, fmt=Y8, rate=rate, spl=spl, soff=soff, svc=s["id"]))
+        for fmt in sorted(fm):
+            if fmt == Y8:
+                continue
+            for rate in (13500000, 27000000, 35468950):
+                for spl in ("min", "nom"):
+                    for api in ("new", "old"):
+                        out.append(dict(api=api, fmt=fmt, rate=rate, spl=spl, soff=0, svc=s["id"]))
     return out
 
 
@@ -149,16 +190,23 @@ def resolve(ctx, drv, table, reqs):
     if len(res["lines"]) != len(cmds):
         raise tlc.ToolFailure("driver answered %d of %d configuration dumps: %s" % (len(res["lines"]), len(cmds), res["stderr"][-500:]))
     if res["stderr"]:
-        core.report_sanitizers(ctx, res["stderr"], in_scope=False)
+        report_san(ctx, res["stderr"])
     out = []
     for c, o in zip(cfgs, res["lines"]):
-        if not o.get("ok") or o["scan"] <= 0:
+        if not o.get("ok"):
+            continue
+        if o["scan"] <= 0 and c["api"] == "new":
             continue
         c["obj"] = o
         f = fm[c["fmt"]]
-        c["rec"] = dict(lp=o["lp"], skip=o["skip"], bps=f["bpp"], wide=1 if (f["bpp"] == 2 and not f["yuv"]) else 0, scan=o["scan"],
+        c["rec"] = dict(lp=o["lp"], skip=o["skip"], bps=f["bpp"], wide=1 if (f["bpp"] == 2 and not f["yuv"]) else 0, scan=max(0, o["scan"]),
                         phase_shift=o["phase_shift"], step=o["step"], frc_bits=o["frc_bits"], payload=o["payload"], endian=o["endian"],
-                        spl=c["spl"], soff=c["soff"], after=0)
+                        spl=c["spl"], soff=c["soff"])
+        if o["scan"] < 0:
+            # the search loop counts an unsigned number down: a negative limit is a search over (nearly) the whole address space
+            ctx.violate("mc", "negative-search-limit:%s" % NAMES.get(c["svc"], c["svc"]),
+                        "vbi_bit_slicer_init(%d samples, %d Hz, service %x): cri_bytes = %d" % (c["spl"], c["rate"], c["svc"], o["scan"]),
+                        dict(kind="line", cmds=[cmds[cfgs.index(c)]]))
         if o["api"] == "new" and o["bps"] != f["bpp"]:
             raise tlc.ToolFailure("bytes_per_sample %s of the slicer differs from the pixel size %s" % (o["bps"], f["bpp"]))
         c["kind"] = "old" if c["api"] == "old" else ("lowpass" if o["lp"] else "new")
@@ -167,55 +215,194 @@ def resolve(ctx, drv, table, reqs):
     return out
 
 
+def sample(ctx, cfgs):
+    """quick tier: a seeded sample of the grid - one configuration of every (service, slicer kind, sample offset) class, one of
+    every (slicer kind, pixel layout) class, then random ones until the budget of model states is used"""
+    rnd = random.Random(ctx.seed)
+    order = list(cfgs)
+    rnd.shuffle(order)
+    fmtclass = lambda c: (c["rec"]["bps"], c["rec"]["wide"], c["rec"]["skip"] - c["soff"] * c["rec"]["bps"])
+    chosen, classes, recs, total = [], set(), set(), 0
+
+    def take(c, limit):
+        nonlocal total
+        t = tuple(c["rec"][k] for k in FIELDS)
+        cost = 0 if t in recs else states_of(c["rec"])
+        if total + cost > limit:
+            return False
+        recs.add(t); total += cost; chosen.append(c)
+        return True
+    cheap = sorted(order, key=lambda c: states_of(c["rec"]) > 12000)     # stable: prefers the cheaper half, keeps the shuffle
+    for keyf, lim in ((lambda c: ("svc", c["svc"], c["kind"], c["soff"] > 0), 0.62), (lambda c: ("fmt", c["kind"], fmtclass(c)), 0.8)):
+        for c in cheap:
+            k = keyf(c)
+            if k in classes:
+                continue
+            if take(c, QUICK_STATES * lim):
+                classes.add(k)
+    for c in order:
+        if c in chosen:
+            continue
+        if total > QUICK_STATES * 0.97:
+            break
+        take(c, QUICK_STATES)
+    return chosen
+
+
 def write_model(ctx, recs, sub):
     d = os.path.join(ctx.scratch, sub)
     os.makedirs(d, exist_ok=True)
     for f in ("SlicerBounds.tla", "MC_SlicerBounds.tla", "MC_SlicerBounds.cfg", "MC_SlicerBounds_survey.cfg"):
         shutil.copy(os.path.join(tlc.SPEC, f), d)
-    rows = ",\n  ".join("[" + ", ".join("%s |-> %d" % (k, r[k]) for k in FIELDS) + "]" for r in recs)
+    rows = ",\n  ".join("[id |-> %d, " % r["id"] + ", ".join("%s |-> %d" % (k, r[k]) for k in FIELDS) + "]" for r in recs)
     open(os.path.join(d, "SlicerCfgs.tla"), "w").write("---- MODULE SlicerCfgs ----\nCfgList == <<\n  %s\n>>\n====\n" % rows)
     return d
 
 
 def model_check(ctx, cfgs, label):
-    """-> dict record index -> survey summary; every cfg gets c['mi'] (model index)"""
+    """-> (prediction per record id: steps / first bytes / excess of the line bound violations, TLC result); c['mi'] = record id"""
     idx, recs = {}, []
     for c in cfgs:
-        for after in (0, c["spl"] * c["rec"]["bps"]):
-            r = dict(c["rec"], after=after)
-            t = tuple(r[k] for k in FIELDS)
-            if t not in idx:
-                idx[t] = len(recs) + 1
-                recs.append(r)
-            if after == 0:
-                c["mi"] = idx[t]
-            else:
-                c["mi_first"] = idx[t]
-    d = write_model(ctx, recs, "sb-" + label)
-    mc = tlc.run("MC_SlicerBounds", "MC_SlicerBounds", timeout=1500, cwd=d, heap="12g")
-    ctx.add_mc(mc, "MC SlicerBounds %s (%d configurations)" % (label, len(recs)))
-    sv = tlc.run("MC_SlicerBounds", "MC_SlicerBounds_survey", timeout=1500, cwd=d, heap="12g", collect_tr=True)
-    if sv.violation:
-        v = sv.violation
-        ctx.violate("mc", "mc:%s:%s" % (v["kind"], v["name"]), v["text"][:3000])
-    ctx.add_mc(sv, "SURVEY SlicerBounds %s" % label)
-    pred = {}
-    for t in sv.tr:
-        p = pred.setdefault(t["c"], dict(n=set(), fb=set(), ex=0, img=0, scan=0))
-        p["n"].add(t["n"]); p["fb"].add(t["fb"]); p["ex"] = max(p["ex"], t["ex"]); p["img"] |= t["img"]
-        if t["ph"] == "scan":
-            p["scan"] = 1
-    if mc.violation:
-        v = mc.violation
-        if v["name"] not in ("LineBound", "ImageBound"):
+        t = tuple(c["rec"][k] for k in FIELDS)
+        if t not in idx:
+            idx[t] = len(recs) + 1
+            recs.append(dict(c["rec"], id=idx[t]))
+        c["mi"] = idx[t]
+    quick = ctx.tier == "quick"
+    nparts = 1 if quick else TLC_PARTS
+    parts = [[] for _ in range(nparts)]
+    load = [0] * nparts
+    for r in sorted(recs, key=lambda r: -states_of(r)):
+        i = load.index(min(load))
+        parts[i].append(r); load[i] += states_of(r)
+    dirs = [write_model(ctx, p, "sb-%s-%d" % (label, i)) for i, p in enumerate(parts)]
+    wk = 8 if quick else 4
+
+    def mc(d):
+        return tlc.run("MC_SlicerBounds", "MC_SlicerBounds", timeout=1500, cwd=d, heap="3g", workers=wk)
+
+    def survey(d):
+        return tlc.run("MC_SlicerBounds", "MC_SlicerBounds_survey", timeout=1500, cwd=d, heap="3g", workers=wk, collect_tr=True)
+    res = core.pmap(mc, dirs, workers=nparts)
+    pred, first = {}, None
+    for i, (d, r) in enumerate(zip(dirs, res)):
+        ctx.add_mc(r, "MC SlicerBounds %s part %d (%d configurations)" % (label, i + 1, len(parts[i])))
+        if not r.violation:
+            continue
+        first = first or r
+        v = r.violation
+        if v["name"] not in ("LineBound", "InnerBound"):
             ctx.violate("mc", "mc:%s:%s" % (v["kind"], v["name"]), v["text"][:3000])
-        elif not pred:
+            continue
+        sv = survey(d)
+        ctx.add_mc(sv, "SURVEY SlicerBounds %s part %d" % (label, i + 1))
+        if sv.violation:
+            ctx.violate("mc", "mc:%s:%s" % (sv.violation["kind"], sv.violation["name"]), sv.violation["text"][:3000])
+        got = False
+        for t in sv.tr:
+            got = True
+            p = pred.setdefault(t["c"], dict(n=set(), fb=set(), ex=0, img=0, scan=0))
+            p["n"].add(t["n"]); p["fb"].update(t["bad"]); p["ex"] = max(p["ex"], t["ex"]); p["img"] |= t["img"]
+            if t["ph"] == "scan":
+                p["scan"] = 1
+        if not got:
             raise tlc.ToolFailure("invariant %s violated but the survey lists no position" % v["name"])
-    elif pred:
-        raise tlc.ToolFailure("survey lists bound violations but the invariants hold")
-    return pred, mc
+    return pred, first
 
 
+# ---------------------------------------------------------------- trace validation of sampling points
+def points_cmds(c, svc, seed):
+    """offsets at which the reference waveform is recorded: around the rightmost position at which the line sweep still decoded
+    it (run-in complete at the last scan steps), the middle and the leftmost position; without a decodable position the nominal one"""
+    t0 = int(svc["offset"] * 1e-9 * c["rate"])
+    g = c.get("good")
+    if g:
+        offs = sorted(set([g[0] + d for d in (-2, -1, 0, 1, 2, 3, 5)] + [(g[0] + g[1]) // 2, g[1]]))
+    else:
+        offs = [t0 - c["soff"] - 2]
+    pay = payload_of(svc, seed)
+    return ["P %d %d %d %d %x %d %s" % (c["fmt"], c["rate"], c["spl"], c["soff"], c["svc"], x, pay) for x in offs]
+
+
+def trace_validate(ctx, drv, table, cfgs):
+    svc = {s["id"]: s for s in table["services"]}
+    sel = [c for c in cfgs if c["api"] == "new" and c["rec"]["bps"] == 1 and c["svc"] not in NO_TX]
+    sel.sort(key=lambda c: not c.get("good"))        # configurations in which the reference waveform decodes first
+    # one log line per sampled bit: bound the log (about 0.2 ms per line in TLC)
+    budget = 25000 if ctx.tier == "quick" else 250000
+    take, lines = [], 0
+    for c in sel:
+        cost = 9 * (data_bits(c["rec"]) + 3)
+        if lines + cost <= budget:
+            take.append(c); lines += cost
+    sel = take
+    if not sel:
+        return
+    jobs = [(c, points_cmds(c, svc[c["svc"]], ctx.seed)) for c in sel]
+    cmds = [x for _, cm in jobs for x in cm]
+    res = drv_batch(drv, cmds)
+    if res["stderr"]:
+        report_san(ctx, res["stderr"], dict(kind="points", cmds=cmds[:50]))
+    if len(res["lines"]) != len(cmds):
+        raise tlc.ToolFailure("driver stopped after %d of %d point recordings: %s" % (len(res["lines"]), len(cmds), res["stderr"][-1500:]))
+    path = os.path.join(ctx.scratch, "points.ndjson")
+    ncalls, nfound, index, i = 0, 0, [], 0
+    with open(path, "w") as f:
+        def put(o, who):
+            f.write(json.dumps(o) + "\n"); index.append(who)
+        for c, cm in jobs:
+            rec = dict(c["rec"], id=c["mi"])
+            lp, soff = rec["lp"], rec["soff"]
+            top = 0
+            for cmd in cm:
+                a = res["lines"][i]; i += 1
+                if not a.get("ok"):
+                    continue
+                ncalls += 1
+                put(dict(a="Start", cf=rec), cmd)
+                cri = [p for p in a["pts"] if p[0] == 1]
+                bits = [p for p in a["pts"] if p[0] != 1]
+                if bits:
+                    if not cri:
+                        raise tlc.ToolFailure("data bits without a run-in bit: %s -> %s" % (cmd, a))
+                    # translation of the reported index (1/256 samples from the line start; low-pass: centre of the window
+                    # after the step) into the model's step / sample numbers
+                    n = (cri[-1][1] >> 8) - soff - (9 if lp else 0)
+                    put(dict(a="Cri", n=n), cmd)
+                    for p in bits:
+                        put(dict(a="Bit", pos=(p[1] >> 8) - soff - (8 if lp else 0)), cmd)
+                    nfound += 1
+                    top = max(top, n)
+                put(dict(a="End", r=a["r"]), cmd)
+            c["reach"] = top
+            ctx.count_case(["points", c["fmt"], c["rate"], c["spl"], c["soff"], c["svc"]], nontrivial=True)
+    if CORRUPT == "points":
+        lines = open(path).read().split("\n")
+        k = max(i for i, ln in enumerate(lines) if '"Bit"' in ln)
+        o = json.loads(lines[k]); o["pos"] += 1
+        lines[k] = json.dumps(o)
+        open(path, "w").write("\n".join(lines))
+    ok, r = tlc.validate_trace("Trace_SlicerBounds", "Trace_SlicerBounds", path, timeout=600, heap="3g")
+    ctx.add_mc(r, "TV sampling points (%d calls, %d with data bits)" % (ncalls, nfound))
+    ctx.cov["point_traces"] = ncalls
+    ctx.cov["last_scan_step_reached"] = sum(1 for c in sel if c.get("reach") == c["obj"]["scan"] - 1)
+    ctx.cov["point_configurations"] = len(sel)
+    if ok:
+        ctx.validated(len(sel))
+    else:
+        at = r.reject_at
+        cmd = index[at - 1] if at and at <= len(index) else None
+        lines = open(path).read().split("\n")
+        name = r.violation["name"] if r.violation else "rejected"
+        who = "?"
+        if cmd:
+            who = NAMES.get(int(cmd.split()[5], 16), cmd.split()[5])
+        ctx.violate("tv", "tv:points:%s:%s" % (name, who), "recorded call %s: log line %s rejected: %s\n%s" %
+                    (cmd, at, lines[at - 1] if at else "", (r.violation or {}).get("text", "")[-1500:]),
+                    dict(kind="points", cmds=[cmd] if cmd else cmds[:20]))
+
+
+# ---------------------------------------------------------------- line level replay
 def sweep_cmds(c, svc, seed, quick):
     """driver lines for one configuration"""
     rate, spl, o = c["rate"], c["spl"], c["obj"]
@@ -225,12 +412,18 @@ def sweep_cmds(c, svc, seed, quick):
         t0 = svc["offset"] * 1e-9 * rate                 # documented position of the signal, samples after 0H
         end = c["soff"] + o["scan"]                      # first sample the search does not look at
         run_in = min(spl, int(64.0 * rate / svc["cri_rate"]) + 64)
-        lo, hi = int(t0) - (end + 24), int(t0) - max(0, end - run_in)
+        # the run-in may begin in front of the line (lines as short as the slicer accepts hold only the end of a long run-in)
+        lo, hi = int(t0) - (end + 24), int(t0) - (end - run_in)
         cmds.append("L %s sig %d %d 1 %d %s" % (head, lo, hi, seed, payload_of(svc, seed)))
     cmds.append("L %s noise 0 %d 1 %d 00" % (head, 5 if quick else 40, seed))
     cmds.append("L %s sat 0 255 %d %d 00" % (head, 51 if quick else 5, seed))
     per = max(1, int(rate / svc["cri_rate"]))
     cmds.append("L %s sq 0 %d 1 %d 00" % (head, 2 * per + 2, seed))
+    # a synthetic transmission that begins late (black, then run-in and framing code as rectangular pulses from sample x on),
+    # placed so that the run-in pattern is complete around the last scan step
+    length = int(svc["cri_bits"] * rate / svc["cri_rate"])
+    end = c["soff"] + o["scan"]
+    cmds.append("L %s late %d %d 1 %d 00" % (head, end - length - 2 * per - 6, end - length + 2 * per + 6, seed))
     return cmds
 
 
@@ -249,6 +442,9 @@ def judge_line(ctx, c, p, answers, cmds, acc):
     wr = [f for f in faults if f[3]]
     rd = [f for f in faults if not f[3]]
     c["sigfaults"] = [f[1] for f in rd if f[0] == "sig"]
+    for a, cmd in zip(answers, cmds):
+        if cmd.split()[7] == "sig" and a.get("have_good"):
+            c["good"] = (a["first_good"], a["last_good"])
     ok = True
     if wr:
         ok = False
@@ -259,12 +455,11 @@ def judge_line(ctx, c, p, answers, cmds, acc):
         ctx.violate("replay", "diverge:unpredicted-read:%s" % who,
                     "%s: the model keeps all accesses inside the line, the real slicer read %d byte(s) behind it: %s" % (where, rd[0][2] + 1, rd[:5]), rp)
     elif rd:
-        wide = c["rec"]["wide"]
-        odd = [f for f in rd if not any(f[2] in (b, b + wide) for b in p["fb"])]
+        odd = [f for f in rd if f[2] not in p["fb"]]
         if odd:
             ok = False
             ctx.violate("replay", "diverge:read-address:%s" % who,
-                        "%s: trapped read at line end + %s, the model predicts first bytes %s" % (where, sorted({f[2] for f in odd}), sorted(p["fb"])), rp)
+                        "%s: trapped read at line end + %s; bytes behind the line touched by the first step that leaves the line in the model: %s" % (where, sorted({f[2] for f in odd}), sorted(p["fb"])), rp)
         e = acc.setdefault(("overread", who), dict(ex=0))
         if p["ex"] > e["ex"]:
             e.update(ex=p["ex"], rp=rp, where=where, faults=rd[:6], n=sorted(p["n"]), cfg=c)
@@ -280,7 +475,7 @@ def judge_line(ctx, c, p, answers, cmds, acc):
 def run_lines(ctx, drv, table, cfgs, pred, quick):
     svc = {s["id"]: s for s in table["services"]}
     jobs = [(c, sweep_cmds(c, svc[c["svc"]], ctx.seed, quick)) for c in cfgs]
-    chunks = [jobs[i::16] for i in range(16)]
+    chunks = [jobs[i::NPROC] for i in range(NPROC)]
 
     def work(chunk):
         if not chunk:
@@ -289,11 +484,11 @@ def run_lines(ctx, drv, table, cfgs, pred, quick):
         r = drv_batch(drv, cmds)
         return [(chunk, r)]
     acc, nshift, ngood = {}, 0, 0
-    for part in core.pmap(work, chunks):
+    for part in core.pmap(work, chunks, workers=NPROC):
         for chunk, r in part:
             lines = r["lines"]
             if r["stderr"]:
-                core.report_sanitizers(ctx, r["stderr"], in_scope=r.get("crashed", False))
+                report_san(ctx, r["stderr"], dict(kind="line", cmds=[x for (_, cm) in chunk for x in cm][:200]))
             if len(lines) != sum(len(cm) for _, cm in chunk):
                 raise tlc.ToolFailure("driver stopped after %d answers: %s" % (len(lines), r["stderr"][-1500:]))
             i = 0
@@ -316,12 +511,12 @@ def report(ctx, acc, mc):
         trace = "\nTLC: " + mc.violation["text"][:300].replace("\n", " ")
     for (what, who), e in sorted(acc.items()):
         if what == "overread":
-            ctx.violate("replay", "overread:%s:+%d" % (who, e["ex"]),
+            ctx.violate("replay", "overread:%s" % who,
                         "%s: the model reaches %d byte(s) behind the line when the run-in completes at scan step %s of %d; the real slicer was "
                         "trapped reading behind the exactly sized line at (mode, sampling offset, byte behind the line, write) %s%s" %
                         (e["where"], e["ex"], e["n"], e["cfg"]["obj"]["scan"], e["faults"], trace), e["rp"])
         else:
-            ctx.violate("mc", "model:LineBound:%s:+%d" % (who, e["ex"]),
+            ctx.violate("mc", "model:LineBound:%s" % who,
                         "%s: invariant LineBound fails (%d byte(s) behind the line, run-in complete at scan step %s) for the parameters of the "
                         "real slicer object; no shifted reference waveform, noise or square wave line reached that step%s" %
                         (e["where"], e["ex"], e["n"], trace), e["rp"])
@@ -343,10 +538,10 @@ def asan_confirm(ctx, drv, table, acc):
 
     def work(j):
         return j, core.run_seq_driver([drv], [[j[2]]], env=build.san_env(), max_restarts=0)[0]
-    for (who, c, cmd), r in core.pmap(work, jobs):
+    for (who, c, cmd), r in core.pmap(work, jobs, workers=NPROC):
         ctx.count_case(["asan", cmd])
         rp = dict(kind="asan", cmds=[cmd])
-        if core.report_sanitizers(ctx, r["stderr"], replay=rp, in_scope=True) == 0:
+        if report_san(ctx, r["stderr"], replay=rp) == 0:
             ctx.notes.append("heap run of %s did not trap (threshold history differs from the sweep): %s" % (who, cmd))
 
 
@@ -359,8 +554,6 @@ def image_jobs(ctx, table, cfgs, quick):
         if c["api"] != "new" or c["soff"] != 0 or c["svc"] in NO_TX:
             continue
         s = svc[c["svc"]]
-        if quick and c["fmt"] != 1 and c["rate"] != 27000000:
-            continue
         t0 = int(s["offset"] * 1e-9 * c["rate"])
         offs = sorted(set(c.get("sigfaults", [])))
         base = [t0 - (c["obj"]["scan"] - 1) + d for d in (-2, 0, 2)] if not offs else []
@@ -392,12 +585,12 @@ def image_cmds(j, svc, seed):
             "S add %x 0" % c["svc"]]
     pay = payload_of(s, seed)
     for o in j["sweep"]:
-        cmds.append("F %d 0 1 0 1 %d:%x:%s" % (o, j["line"], c["svc"], pay))
+        cmds.append("F %d 0 1 -1 1 %d:%x:%s" % (o, j["line"], c["svc"], pay))
     cmds += ["G 0 %d" % seed, "G 1 255", "G 1 0", "G 2 %d" % max(1, int(c["rate"] / s["cri_rate"]))]
     return cmds
 
 
-def judge_image(ctx, j, p_last, p_first, ans, cmds, acc):
+def judge_image(ctx, j, p, ans, cmds, acc):
     c = j["c"]
     who = "image-%s:%s" % (j["api"], c["name"])
     rows = j["st"][1] + j["st"][3]
@@ -408,8 +601,8 @@ def judge_image(ctx, j, p_last, p_first, ans, cmds, acc):
         raise tlc.ToolFailure("raw decoder rejected valid sampling parameters: %s -> %s" % (cmds[0], ans[:1]))
     if ans[1].get("set", 0) & c["svc"] == 0:
         return None                                   # service not decodable with this geometry (checked by C04)
-    p = p_last if j["pos"] == "last" else p_first
-    predicted = bool(p and p["img"])
+    # the model's verdict for the row the signal is on: last row = LineBound, any other row = InnerBound
+    predicted = bool(p and (j["pos"] == "last" or p["img"]))
     ok = True
     got_fault = False
     for a, cmd in zip(ans[2:], cmds[2:]):
@@ -441,7 +634,7 @@ def judge_image(ctx, j, p_last, p_first, ans, cmds, acc):
 def run_images(ctx, drv, table, cfgs, pred, acc, quick):
     svc = {s["id"]: s for s in table["services"]}
     jobs = image_jobs(ctx, table, cfgs, quick)
-    chunks = [jobs[i::16] for i in range(16)]
+    chunks = [jobs[i::NPROC] for i in range(NPROC)]
 
     def work(chunk):
         out = []
@@ -450,16 +643,16 @@ def run_images(ctx, drv, table, cfgs, pred, acc, quick):
         seqs = [image_cmds(j, svc, ctx.seed) for j in chunk]
         res = core.run_seq_driver([drv], seqs, env=env(), timeout=900)
         return list(zip(chunk, seqs, res))
-    for part in core.pmap(work, chunks):
+    for part in core.pmap(work, chunks, workers=NPROC):
         for j, cmds, r in part:
             if r.get("skipped"):
                 continue
             if r["stderr"]:
-                core.report_sanitizers(ctx, r["stderr"], replay=dict(kind="image", cmds=cmds), in_scope=r.get("crashed", False))
+                report_san(ctx, r["stderr"], replay=dict(kind="image", cmds=cmds))
             if len(r["lines"]) != len(cmds):
                 raise tlc.ToolFailure("driver stopped in %s: %s" % (cmds[0], r["stderr"][-1500:]))
             c = j["c"]
-            ok = judge_image(ctx, j, pred.get(c["mi"]), pred.get(c["mi_first"]), r["lines"], cmds, acc)
+            ok = judge_image(ctx, j, pred.get(c["mi"]), r["lines"], cmds, acc)
             if ok is None:
                 continue
             ctx.count_case(["image", j["api"], j["pos"], j["il"], c["fmt"], c["rate"], c["spl"], c["svc"]], nontrivial=True)
@@ -467,12 +660,131 @@ def run_images(ctx, drv, table, cfgs, pred, acc, quick):
                 ctx.validated()
 
 
+# ---------------------------------------------------------------- SlicerImage: model checking, generated behaviours on the real decoders
+# images in which every row can carry a decodable signal: (pixel format, rate, samples per line, scanning, first line of field 1,
+# first line of field 2, service per row).  Services with lines in both fields are only accepted when both fields are present;
+# an image of one field is filled with one-line services of that field.
+BOTH = [(1, 13500000, 720, 625, 7, 320, 3), (4, 27000000, 1440, 625, 8, 321, 3), (1, 13500000, 720, 525, 10, 272, 0x100),
+        (33, 13500000, 720, 625, 6, 318, 0x2000), (38, 27000000, 1440, 525, 11, 273, 0x10000), (36, 14750000, 800, 625, 9, 322, 0x4000)]
+FIELD1 = [(1, 13500000, 720, 625, 22, 0, (8, 0x400)), (4, 27000000, 1440, 625, 22, 0, (8, 0x400))]     # line 22 caption, 23 WSS
+FIELD2 = [(1, 13500000, 720, 625, 0, 335, (0x10,)), (1, 13500000, 720, 625, 0, 329, (0x1000,)), (32, 27000000, 1440, 525, 0, 284, (0x40,))]
+
+
+def carrier(b, rnd):
+    """-> (fmt, rate, spl, scanning, start0, start1, [service of row i]) or None when not every row of this geometry can carry a signal"""
+    if b["c0"] and b["c1"]:
+        (fmt, rate, spl, std, f0, f1, sid) = BOTH[rnd.randrange(len(BOTH))]
+        return fmt, rate, spl, std, f0, f1, [sid] * (b["c0"] + b["c1"])
+    if b["c0"]:
+        (fmt, rate, spl, std, f0, f1, sids) = FIELD1[rnd.randrange(len(FIELD1))]
+    else:
+        (fmt, rate, spl, std, f0, f1, sids) = FIELD2[rnd.randrange(len(FIELD2))]
+    if b["c0"] + b["c1"] > len(sids):
+        return None
+    return fmt, rate, spl, std, f0, f1, list(sids[:b["c0"] + b["c1"]])
+
+
+def image_model(ctx, drv, table, quick):
+    tier = "q" if quick else "t"
+    mc = tlc.run("SlicerImage", "MC_SlicerImage_" + tier, timeout=600, workers=4, heap="2g")
+    ctx.add_mc(mc, "MC SlicerImage")
+    if mc.violation:
+        ctx.violate("mc", "mc:%s:%s" % (mc.violation["kind"], mc.violation["name"]), mc.violation["text"][:3000])
+        return
+    gen = tlc.run("Gen_SlicerImage", "Gen_SlicerImage_" + tier, timeout=600, workers=4, heap="2g", collect_tr=True)
+    ctx.add_mc(gen, "GEN SlicerImage")
+    if not gen.tr:
+        raise tlc.ToolFailure("no behaviour generated from SlicerImage")
+    svc = {s["id"]: s for s in table["services"]}
+    bpp = {f["fmt"]: f["bpp"] for f in table["formats"]}
+    rnd = random.Random(ctx.seed)
+    jobs, skipped = [], 0
+    if CORRUPT == "image":
+        b = [x for x in gen.tr if x["n"] >= 1 and x["c0"] and x["c1"]][0]
+        b["recs"] = b["recs"][:-1]; b["n"] -= 1
+    for b in gen.tr:
+        rows = b["c0"] + b["c1"]
+        for api in ("new", "old"):
+            if api == "old" and b["maxl"] != rows:
+                continue                              # vbi_raw_decode has no max_lines: the array has one record per row
+            car = carrier(b, rnd)
+            if car is None:
+                skipped += 1
+                continue
+            (fmt, rate, spl, std, f0, f1, sids) = car
+            pay = [payload_of(svc[x], ctx.seed + len(jobs)) for x in sids]
+            line = lambda i: (f0 + i) if i < b["c0"] else (f1 + i - b["c0"])
+            t0 = min(int(svc[x]["offset"] * 1e-9 * rate) for x in sids)
+            cmds = ["I %s %d %d %d %d %d %d %d %d %d 1" % (api, fmt, rate, spl * bpp[fmt], std, f0 if b["c0"] else 0, b["c0"],
+                                                           f1 if b["c1"] else 0, b["c1"], b["il"])]
+            allid = 0
+            for x in sids:
+                allid |= x
+            if b["svc"]:
+                cmds.append("S add %x 0" % allid)
+            cmds.append("F %d 0 1 %d %d%s" % (t0 - 10, b["maxl"] if api == "new" else -1, len(b["sig"]),
+                                              "".join(" %d:%x:%s" % (line(i), sids[i], pay[i]) for i in b["sig"])))
+            jobs.append(dict(b=b, api=api, cmds=cmds, allid=allid, lines=[line(i) for i in b["recs"]],
+                             recs=[dict(line=line(i), id=sids[i], data=pay[i]) for i in b["recs"]],
+                             where="%s raw decoder, %s fmt %d %d Hz, count %d+%d%s, max_lines %d, signal on scan lines %s" % (
+                                 api, "+".join(sorted({NAMES.get(x, "%x" % x) for x in sids})), fmt, rate, b["c0"], b["c1"],
+                                 " interlaced" if b["il"] else "", b["maxl"], b["sig"])))
+    ctx.cov["image_behaviours_not_replayable"] = skipped
+    chunks = [jobs[i::NPROC] for i in range(NPROC)]
+
+    def work(chunk):
+        if not chunk:
+            return []
+        res = core.run_seq_driver([drv], [j["cmds"] for j in chunk], env=env(), timeout=900)
+        return list(zip(chunk, res))
+    for part in core.pmap(work, chunks, workers=NPROC):
+        for j, r in part:
+            b = j["b"]
+            rp = dict(kind="image", cmds=j["cmds"], where=j["where"], expected=dict(n=b["n"], lines=j["lines"]))
+            if r.get("skipped"):
+                continue
+            if r["stderr"]:
+                report_san(ctx, r["stderr"], replay=rp)
+            if len(r["lines"]) != len(j["cmds"]):
+                raise tlc.ToolFailure("driver stopped in %s: %s" % (j["cmds"], r["stderr"][-1500:]))
+            if not r["lines"][0].get("ok"):
+                raise tlc.ToolFailure("raw decoder rejected valid sampling parameters: %s" % j["cmds"][0])
+            if b["svc"] and r["lines"][1].get("set") != j["allid"]:
+                raise tlc.ToolFailure("raw decoder does not accept the services of the carrier: %s -> %s" % (j["cmds"][:2], r["lines"][1]))
+            a = r["lines"][-1]
+            nontrivial = bool(b["svc"] and b["sig"])
+            ctx.count_case(["imgmodel", j["api"], b["c0"], b["c1"], b["il"], b["maxl"], b["svc"], b["sig"]], nontrivial=nontrivial)
+            who = "image-%s" % j["api"]
+            if a.get("fault"):
+                ctx.violate("replay", "%s:%s" % ("overwrite" if a["write"] else "diverge:unpredicted-read", who),
+                            "%s: %s %d byte(s) behind the %s; the model (RowInside, OutBound) keeps every access inside" % (
+                                j["where"], "store" if a["write"] else "read", a["off"] + 1, "output array" if a["write"] else "image"), rp)
+                continue
+            if "n" not in a:
+                raise tlc.ToolFailure("driver: %s -> %s" % (j["cmds"], a))
+            got = [x["line"] for x in a["rec"]]
+            if a["n"] != b["n"] or got != j["lines"]:
+                ctx.violate("replay", "diverge:records:%s" % who, "%s: the spec stores %d record(s) for lines %s, the decoder returned %d for lines %s" % (
+                    j["where"], b["n"], j["lines"], a["n"], got), rp)
+            elif not a["rest"] or any(not x["tail"] for x in a["rec"]):
+                ctx.violate("replay", "overwrite:%s" % who, "%s: records behind the returned count untouched: %s, bytes behind the payload untouched: %s" % (
+                    j["where"], bool(a["rest"]), [x["tail"] for x in a["rec"]]), rp)
+            elif any(not same_payload(svc[e["id"]], x["data"], e["data"]) or x["id"] & e["id"] == 0 for x, e in zip(a["rec"], j["recs"])):
+                ctx.violate("replay", "diverge:payload:%s" % who, "%s: transmitted %s, decoded %s" % (j["where"], j["recs"], a["rec"]), rp)
+            else:
+                ctx.validated()
+    if jobs:
+        j = jobs[len(jobs) // 2]
+        ctx.sample(dict(image_behaviour=j["b"], where=j["where"], commands=j["cmds"], expected_lines=j["lines"]))
+
+
 def run(ctx):
     quick = ctx.tier == "quick"
     ctx.cov["rule"] = ("cases = configurations (interface, service, pixel format, sampling rate, samples per line, sample offset) whose real slicer "
                        "object was modelled by TLC and executed on guard pages (reference waveform at every sampling offset around the end of the "
-                       "search range + noise, constant and square wave lines), plus raw decoder images (signal on the last / first row); "
-                       "validated = model verdict and trapped accesses agree and nothing was trapped")
+                       "search range + noise, constant, square wave and truncated lines), recorded sampling point traces per configuration, raw decoder "
+                       "images (signal on the last / first row) and SlicerImage behaviours replayed on both decoder interfaces; "
+                       "validated = model verdict and observation agree and nothing was trapped")
     ctx.assumptions += ["the page protection of the kernel and ASan are the monitors for accesses of the real code",
                         "service parameters are those of the library's own table (_vbi_service_table)",
                         "sampling rates between the grid points are not covered"]
@@ -484,13 +796,19 @@ def run(ctx):
     cfgs = resolve(ctx, drv, table, grid(ctx, table))
     if not cfgs:
         raise tlc.ToolFailure("no configuration accepted by the slicer")
+    ctx.cov["grid_configurations"] = len(cfgs)
+    if quick:
+        cfgs = sample(ctx, cfgs)
+    ctx.cov["modelled_configurations"] = len(cfgs)
     pred, mc = model_check(ctx, cfgs, ctx.tier)
     ctx.sample(dict(configuration={k: cfgs[0][k] for k in ("api", "fmt", "rate", "spl", "soff", "name")}, real_object=cfgs[0]["obj"],
                     model=cfgs[0]["rec"]))
     acc = run_lines(ctx, drv, table, cfgs, pred, quick)
+    trace_validate(ctx, drv, table, cfgs)
     asan_confirm(ctx, drv, table, acc)
     run_images(ctx, drv, table, cfgs, pred, acc, quick)
     report(ctx, acc, mc)
+    image_model(ctx, drv, table, quick)
     ctx.cov["exhaustive"] = True
     for (what, who), e in sorted(acc.items())[:2]:
         ctx.sample(dict(finding=what, where=e["where"], excess_bytes=e["ex"], run_in_complete_at=e["n"], trapped=e["faults"][:3]))
@@ -502,12 +820,36 @@ def replay(ctx, rp):
     asan = r.get("kind") == "asan"
     res = core.run_seq_driver([drv], [r["cmds"]], env=build.san_env() if asan else env(), max_restarts=0)[0]
     bad = []
+    exp = r.get("expected")
     for cmd, a in zip(r["cmds"], res["lines"]):
         print(cmd[:140], "->", json.dumps(a)[:400])
         if a.get("fault") or a.get("nfault"):
             bad.append((cmd, a))
+        if exp and cmd.startswith("F") and "n" in a and (a["n"] != exp["n"] or [x["line"] for x in a["rec"]] != exp["lines"]):
+            bad.append((cmd, a))
     if res["stderr"]:
         print(res["stderr"][:3000])
-        core.report_sanitizers(ctx, res["stderr"], replay=r, in_scope=True)
+        report_san(ctx, res["stderr"], replay=r)
     if bad and not ctx.violations:
-        ctx.violate("replay", rp["key"], "access outside the buffer trapped again: %s" % (bad[0],), r)
+        ctx.violate("replay", rp["key"], "reproduced: %s" % (bad[0],), r)
+
+
+def selftest(ctx):
+    """one recorded field (the sample position of a bit in a sampling point trace) and one generated field (the records of a
+    SlicerImage behaviour) are falsified: the check must reject both"""
+    global CORRUPT
+    rc = 0
+    for what, key in (("points", "tv:points:"), ("image", "diverge:records:")):
+        CORRUPT = what
+        sub = core.Ctx(ctx.pid, "quick", ctx.seed)
+        try:
+            run(sub)
+            hit = [v.key for v in sub.violations if v.key.startswith(key)]
+            other = [v.key for v in sub.violations if not v.key.startswith(key)]
+            print("selftest %s: %s%s" % (what, "rejected (%s)" % hit[0] if hit else "NOT rejected", " other: %s" % other[:3] if other else ""))
+            if not hit or other:
+                rc = 1
+        finally:
+            sub.cleanup()
+            CORRUPT = ""
+    return rc
